@@ -10,6 +10,7 @@ package main
 
 import (
 	"bytes"
+	"crypto/sha256"
 	"fmt"
 	"math/big"
 	"math/rand"
@@ -168,10 +169,24 @@ func (g *gen) smpHonest(w *world) {
 		s1, s2, equal := g.secretPair()
 		q := []string{"", "what is it?"}[g.r.Intn(2)]
 		*n.evOf(ini), *n.evOf(res) = nil, nil
+		restart := g.r.Intn(4)
+		switch restart {
+		case 1: // the initiator starts over while its first attempt is still unanswered
+			ts, _ := n.w.smpStart(ini, q, []byte("first attempt, abandoned"))
+			n.l.enqueue(ini, ts)
+			n.pump(nil)
+			*n.evOf(ini), *n.evOf(res) = nil, nil
+		case 2: // the party that has been asked for the secret starts a run of its own instead of answering
+			ts, _ := n.w.smpStart(res, q, []byte("a run that is overtaken"))
+			n.l.enqueue(res, ts)
+			n.pump(nil)
+			*n.evOf(ini), *n.evOf(res) = nil, nil
+		}
+		g.dist[fmt.Sprintf("smp:honest:restart%d", restart)]++
 		n.honestRun(ini, res, q, s1, s2, nil)
 		olog.ok("C11")
 		ei, er := *n.evOf(ini), *n.evOf(res)
-		desc := fmt.Sprintf("OTRv%d, question %q, secrets equal=%v (%q / %q): initiator events %v, responder events %v", version, q, equal, s1, s2, ei, er)
+		desc := fmt.Sprintf("OTRv%d, question %q, secrets equal=%v (%q / %q), restart variant %d: initiator events %v, responder events %v", version, q, equal, s1, s2, restart, ei, er)
 		if equal {
 			if !hasEv(ei, "smp:6") || !hasEv(er, "smp:6") {
 				olog.viol("C11", "equal-secrets-no-success", desc)
@@ -306,6 +321,19 @@ func (g *gen) deviantPayload(tlvType uint16, value []byte) ([]byte, string) {
 	if !ok || len(mpis) == 0 {
 		return nil, ""
 	}
+	if tlvType == 3 && len(mpis) == 11 && (g.forceDegenerate || g.r.Intn(3) == 0) {
+		// SMP message 2 whose Pb and Qb are the same non-trivial multiple of p: every term of the
+		// proof that contains them collapses to zero, so cP = H(5, 0, 0) "proves" it for any D5, D6;
+		// a receiver that lets the values through then divides by Qb
+		k := big.NewInt(int64(2 + g.r.Intn(4)))
+		kp := new(big.Int).Mul(bigP, k)
+		h := sha256.New()
+		h.Write([]byte{5})
+		h.Write(otr3.AppendMPI(nil, big.NewInt(0)))
+		h.Write(otr3.AppendMPI(nil, big.NewInt(0)))
+		mpis[6], mpis[7], mpis[8], mpis[9], mpis[10] = kp, kp, new(big.Int).SetBytes(h.Sum(nil)), big.NewInt(1), big.NewInt(1)
+		return append(question, otr3.AppendMPIs(otr3.AppendWord(nil, uint32(len(mpis))), mpis...)...), fmt.Sprintf("Pb=Qb=%dp with cP=H(5,0,0)", k)
+	}
 	switch g.r.Intn(10) {
 	case 0: // one MPI fewer
 		mpis = mpis[:len(mpis)-1]
@@ -320,8 +348,9 @@ func (g *gen) deviantPayload(tlvType uint16, value []byte) ([]byte, string) {
 	one := big.NewInt(1)
 	cands := []*big.Int{big.NewInt(0), one, new(big.Int).Sub(bigP, one), bigP, new(big.Int).Add(bigP, one), bigQ,
 		new(big.Int).Add(mpis[i], one), new(big.Int).Sub(mpis[i], one), new(big.Int).SetBytes(g.bytesN(192)), new(big.Int).Sub(bigP, big.NewInt(2)), big.NewInt(2),
-		new(big.Int).Add(mpis[i], bigQ), new(big.Int).Add(mpis[i], bigQ), new(big.Int).Add(mpis[i], bigP)}
-	names := []string{"0", "1", "p-1", "p", "p+1", "q", "+1", "-1", "random", "p-2", "2", "+q", "+q", "+p"}
+		new(big.Int).Add(mpis[i], bigQ), new(big.Int).Add(mpis[i], bigQ), new(big.Int).Add(mpis[i], bigP),
+		new(big.Int).Lsh(bigP, 1), new(big.Int).Mul(bigP, big.NewInt(int64(3+g.r.Intn(5))))}
+	names := []string{"0", "1", "p-1", "p", "p+1", "q", "+1", "-1", "random", "p-2", "2", "+q", "+q", "+p", "2p", "kp"}
 	k := g.r.Intn(len(cands))
 	v := cands[k]
 	if v.Sign() < 0 {
@@ -341,6 +370,9 @@ func (g *gen) smpDeviant(w *world) {
 		return
 	}
 	target := 2 + g.r.Intn(4) // which SMP message type to tamper with (2..5), 7 handled as 2 with question
+	if g.forceDegenerate {
+		target = 3
+	}
 	q := []string{"", "q?"}[g.r.Intn(2)]
 	done := false
 	what := ""
@@ -458,7 +490,9 @@ func init() {
 			case 1:
 				g.smpRelay(w)
 			default:
+				g.forceDegenerate = i%10 == 7
 				g.smpDeviant(w)
+				g.forceDegenerate = false
 			}
 		}
 		extra["panics"] = panicCount
